@@ -172,6 +172,10 @@ def run(ctx, rec):
         for other in (3, Decimal("0.25"), "1e3"):
             call(rec, "arith-raises:+num", f"({mpref._desc(a)}) + {other!r}", {"kind": "num", "a": mpref.case_of(a), "b": mpref.case_of(other)}, lambda o=other: a + o)
             call(rec, "arith-raises:*num", f"({mpref._desc(a)}) * {other!r}", {"kind": "num", "a": mpref.case_of(a), "b": mpref.case_of(other)}, lambda o=other: a * o)
+    if not ctx.quick and ctx.shard == 0:
+        from .. import suite
+
+        suite.run_suite(rec, "pref", ["arith", "cmp", "hash", "int-", "float-", "same-value", "conv"])
     rec.extra["prefix_pairs_covered"] = len(pairs)
     rec.exhaustive = False
     rec.extra["explanation_exhaustive"] = "the 441 ordered prefix pairs are enumerated completely; mantissas are sampled"
